@@ -7,6 +7,7 @@ import (
 	"encoding/json"
 	"fmt"
 	"os"
+	"path"
 	"path/filepath"
 	"sort"
 	"strings"
@@ -220,6 +221,12 @@ func fileNameToIndex(filename string) retrievedListIndex {
 	i := strings.Index(ret, "@")
 	if i > -1 {
 		ret = ret[:i]
+	}
+	// A file has one index however its name is spelled: "./x.sysl", "x.sysl" and "d/../x.sysl" are one file
+	if syslutil.IsRemoteImport(ret) {
+		ret = "/" + path.Clean(ret)
+	} else {
+		ret = path.Clean(ret)
 	}
 
 	return retrievedListIndex(ret)
